@@ -323,6 +323,7 @@ type pobj struct {
 	raw    []byte // encoding in the case, as returned
 	cp     []byte
 	ecb    int
+	fn     string // the library call that returned raw
 	d      interface{}
 	stream bool
 }
@@ -664,7 +665,7 @@ func heldPackCase(id, base string, names []string, r *vlib.Rand, par bool) {
 			h.fail(typ+":encode-panics/multi-object", fmt.Sprintf("%s: writing %s panics (%v) while a fresh object with the same values alone is written fine", typ, o.name, p), map[string]interface{}{"populated": renderStr(o.tree, 4000)})
 			return
 		}
-		o.cp = append([]byte(nil), o.raw...)
+		o.cp, o.fn = append([]byte(nil), o.raw...), fn
 		h.hold(newHeld(fn, "the encoding of "+o.name, o.raw))
 		want := o.ref
 		if o.ecb > 0 {
@@ -814,7 +815,7 @@ func heldPackCase(id, base string, names []string, r *vlib.Rand, par bool) {
 			fp, wp = h.walk(o.ts.Name, d)
 		}
 		if p != nil || wp != nil || fp == nil || diffNode(o.refFp, fp, "", "") != nil {
-			h.fail("DataOutputX.ToByteArray:result-altered-later",
+			h.fail(o.fn+":result-altered-later",
 				fmt.Sprintf("at the end of the case the slice returned for the encoding of %s no longer decodes to the object it decoded to (panic %v/%v)", o.name, p, wp),
 				map[string]interface{}{"returned_slice_now": hexFull(o.raw), "was": hexFull(o.cp)})
 			return
